@@ -17,6 +17,28 @@ impl<Value: Clone> SubTimeline<Value> {
         &&& forall|i: int| 0 <= i < self.frame_index_map@.len() ==> (#[trigger] self.frame_index_map@[i] as int) < self.frames@.len()
     }
 
+    /// Representation invariant (lookup part): how the frame list and the index map relate to the
+    /// master keyframe positions `bt`.  Established by `from_keyframes`, preserved by
+    /// `override_start_value`, and sufficient for the O(1) lookup to return the bracketing pair
+    /// (`lemma_lookup_brackets`).
+    pub closed spec fn linked(&self, bt: Seq<f32>) -> bool {
+        let fr = self.frames@;
+        let m = self.frame_index_map@;
+        fr.len() > 0 ==> {
+            &&& m.len() == bt.len()
+            &&& m.len() >= 1
+            &&& fr.len() >= 2
+            &&& forall|j: int| 0 <= j < fr.len() ==> pos01(#[trigger] fr[j].normalized_time)
+            &&& is_zero(fr[0].normalized_time)
+            &&& is_one(fr[fr.len() - 1].normalized_time)
+            &&& forall|i: int| 0 <= i < m.len() ==> ((#[trigger] m[i]) == 0 || fle(fr[m[i] as int].normalized_time, bt[i]))
+            &&& forall|i: int, j: int| #![trigger m[i], fr[j]] 0 <= i && i + 1 < m.len() && (m[i] as int) < j < fr.len() ==> fle(bt[i + 1], fr[j].normalized_time)
+            &&& forall|j: int| (m[m.len() - 1] as int) < j < fr.len() ==> is_one(#[trigger] fr[j].normalized_time)
+            &&& m[0] <= 1
+            &&& (self.start_frame_override.is_some() ==> self.start_frame_override.unwrap().normalized_time == fr[0].normalized_time)
+        }
+    }
+
     /// C10: frame `index`, with the substituted start frame standing in for index 0 iff enabled.
     pub closed spec fn spec_frame_at(&self, index: int, enable_start_override: bool) -> Option<&SplitKeyframe<Value>> {
         if enable_start_override && index == 0 && self.start_frame_override.is_some() {
@@ -43,5 +65,104 @@ impl<Value: Clone> SubTimeline<Value> {
         } else {
             Some([at, &self.frames@[k + 1]])
         }
+    }
+}
+
+/// Positions of the master keyframes.
+pub open spec fn times<Data: Clone>(kfs: Seq<Keyframe<Data>>) -> Seq<f32> {
+    Seq::new(kfs.len(), |i: int| kfs[i].normalized_time)
+}
+
+/// The relation `prepare_frame` establishes between a position `t` and the master index `hint`
+/// it hands to the lookup: keyframe `hint` is at or before `t` and keyframe `hint + 1` (if any)
+/// is at or after it; or `t` lies before the first keyframe and `hint == 0`.
+pub open spec fn hint_ok(bt: Seq<f32>, hint: int, t: f32) -> bool {
+    &&& 0 <= hint < bt.len()
+    &&& forall|i: int| 0 <= i < bt.len() ==> pos01(#[trigger] bt[i])
+    &&& forall|i: int, j: int| 0 <= i <= j < bt.len() ==> fle(#[trigger] bt[i], #[trigger] bt[j])
+    &&& ((fle(bt[hint], t) && (hint + 1 < bt.len() ==> fle(t, bt[hint + 1]))) || (hint == 0 && flt(t, bt[0])))
+}
+
+/// `p` is (frame k, frame k+1) - or (last, last) - with the start override standing in for frame 0.
+pub open spec fn pair_at<Value: Clone>(s: &SubTimeline<Value>, p: [&SplitKeyframe<Value>; 2], k: int, flag: bool) -> bool {
+    &&& 0 <= k < s.spec_frames().len()
+    &&& Some(p[0]) == s.spec_frame_at(k, flag)
+    &&& (Some(p[1]) == s.spec_frame_at(k + 1, flag) || (k == s.spec_frames().len() - 1 && p[1] == p[0]))
+}
+
+/// C01 (which neighbours): for a well-formed, linked sub-timeline the lookup returns a pair of
+/// *consecutive* frames (or the last frame twice) that bracket the position:
+/// `first.t <= t <= second.t`; frame 0 is replaced by the substituted start frame iff enabled.
+pub proof fn lemma_lookup_brackets<Value: Clone>(s: &SubTimeline<Value>, bt: Seq<f32>, t: f32, hint: int, flag: bool)
+    requires
+        s.wf(),
+        s.linked(bt),
+        s.spec_frames().len() > 0,
+        pos01(t),
+        hint_ok(bt, hint, t),
+    ensures
+        s.spec_bounding(t, hint, flag).is_some(),
+        ({
+            let p = s.spec_bounding(t, hint, flag).unwrap();
+            &&& fle(p[0].spec_time(), t)
+            &&& fle(t, p[1].spec_time())
+            &&& exists|k: int| #[trigger] pair_at(s, p, k, flag)
+        }),
+{
+    broadcast use axiom_fle_refl;
+    let fr = s.frames@;
+    let m = s.frame_index_map@;
+    let k = m[hint] as int;
+    assert(0 <= k < fr.len());
+    let at = s.spec_frame_at(k, flag).unwrap();
+    assert(at.normalized_time == fr[k].normalized_time);
+    assert(pos01(fr[k].normalized_time));
+    assert(pos01(fr[0].normalized_time));
+    if flt(t, at.normalized_time) {
+        // t is strictly before the mapped frame: only possible before the first keyframe
+        if fle(bt[hint], t) && (hint + 1 < bt.len() ==> fle(t, bt[hint + 1])) {
+            if k == 0 {
+                axiom_zero_least(fr[0].normalized_time, t);
+            } else {
+                axiom_fle_trans(fr[k].normalized_time, bt[hint], t);
+            }
+            assert(false);
+        }
+        assert(hint == 0 && flt(t, bt[0]));
+        if k == 0 {
+            axiom_zero_least(fr[0].normalized_time, t);
+            assert(false);
+        }
+        assert(k == 1);
+        let prev = s.spec_frame_at(0, flag).unwrap();
+        assert(prev.normalized_time == fr[0].normalized_time);
+        axiom_zero_least(fr[0].normalized_time, t);
+        axiom_flt_implies_fle(t, at.normalized_time);
+        let p = s.spec_bounding(t, hint, flag).unwrap();
+        assert(pair_at(s, p, 0, flag));
+    } else if k == fr.len() - 1 {
+        axiom_one_greatest(t, fr[k].normalized_time);
+        let p = s.spec_bounding(t, hint, flag).unwrap();
+        assert(pair_at(s, p, k, flag));
+    } else {
+        let nx = fr[k + 1];
+        assert(pos01(nx.normalized_time));
+        if hint + 1 < bt.len() {
+            assert(fle(bt[hint + 1], fr[k + 1].normalized_time));
+            if fle(bt[hint], t) && fle(t, bt[hint + 1]) {
+                axiom_fle_trans(t, bt[hint + 1], nx.normalized_time);
+            } else {
+                assert(hint == 0 && flt(t, bt[0]));
+                axiom_flt_implies_fle(t, bt[0]);
+                assert(fle(bt[0], bt[1]));
+                axiom_fle_trans(t, bt[0], bt[1]);
+                axiom_fle_trans(t, bt[1], nx.normalized_time);
+            }
+        } else {
+            assert(is_one(fr[k + 1].normalized_time));
+            axiom_one_greatest(t, nx.normalized_time);
+        }
+        let p = s.spec_bounding(t, hint, flag).unwrap();
+        assert(pair_at(s, p, k, flag));
     }
 }
